@@ -2081,6 +2081,9 @@ func decodeExtendedDecapsulateIngress(data *[]byte) (SFlowExtendedDecapsulateIng
 	rec := SFlowExtendedDecapsulateIngressRecord{}
 	var fdf SFlowFlowDataFormat
 
+	if len(*data) < 12 {
+		return rec, errors.New("extended decapsulate ingress record too small")
+	}
 	*data, fdf = (*data)[4:], SFlowFlowDataFormat(binary.BigEndian.Uint32((*data)[:4]))
 	rec.EnterpriseID, rec.Format = fdf.decode()
 	*data, rec.FlowDataLength = (*data)[4:], binary.BigEndian.Uint32((*data)[:4])
